@@ -50,7 +50,7 @@ variable (H : Alg → Bytes → Bytes)
 theorem accept_core (ob op : Opts) (Ω : Oracles) (ver : String) (vid : Nat) (hver : (ver, vid) ∈ Gen.versions)
     (hfind : Gen.versions.find? (fun p => bs p.1 == bs ver) = some (ver, vid))
     (hnolf : LF ∉ bs ver) (htrim : trim isWs (bs ver ++ crlf) = bs ver)
-    (hfin : Fields) (content tail : Bytes) (rt : Nat) (b : Block) (sp : St)
+    (hfin : Fields) (content : Bytes) (rt : Nat) (b : Block) (sp : St)
     (hne : hfin ≠ []) (hclean : ∀ nv ∈ hfin, CleanField nv) (hok : HdrOK op Ω vid hfin) (hrtfin : rtOf hfin = rt)
     (hcl : contentLengthOf hfin = (content.length : Int)) (hclv : hfin.get (bs "Content-Length") = natToDec content.length)
     (hsyn : ob.syn = .fail) (hblk : ob.blk = .fail) (hskip : op.skipParseBlock = ob.skipParseBlock)
@@ -60,14 +60,19 @@ theorem accept_core (ob op : Opts) (Ω : Oracles) (ver : String) (vid : Nat) (hv
     (hbdS : SilentDigest H op bd content)
     (hpdS : (rt == RT_Revisit || hfin.has (bs "WARC-Segment-Number")) = false → b.payloadDigest.isSome = true →
             SilentDigest H op pd (content.drop b.headLen)) :
-    ∃ r', unmarshal H op Ω ⟨marshal (bs ver) hfin content ++ tail, false⟩ = ⟨some r', 0, [], none, tail⟩ ∧
+    ∃ r', (∀ (tail : Bytes) (fault : Bool),
+        unmarshal H op Ω ⟨marshal (bs ver) hfin content ++ tail, fault⟩ = ⟨some r', 0, [], none, tail⟩) ∧
       r'.hdr = hfin ∧ r'.block.raw = content ∧ r'.rt = rt ∧ r'.verTxt = bs ver ∧ r'.verId = vid := by
-  have hm : marshal (bs ver) hfin content ++ tail = bs "WARC/" ++ bs ver ++ crlf ++ Fields.write hfin ++ crlf ++ (content ++ crlfcrlf ++ tail) := by
-    unfold marshal; simp [List.append_assoc]
-  rw [hm, unmarshal_serialized H op Ω ver vid hver hfind hnolf htrim hfin hne hclean]
   obtain ⟨_, _, _, b', hpb', hraw', hhl', _, hbd', hpd'⟩ :=
     parseBlock_reaccept ob op Ω rt content sp sp b hsyn hblk hskip hpb hfin [] hct bd pd hbd hpd
+  refine ⟨{ verTxt := bs ver, verId := vid, rt := rt, hdr := hfin, block := b' }, ?_, rfl, hraw', rfl, rfl, rfl⟩
+  intro tail fault
+  have hm : marshal (bs ver) hfin content ++ tail = bs "WARC/" ++ bs ver ++ crlf ++ Fields.write hfin ++ crlf ++ (content ++ crlfcrlf ++ tail) := by
+    unfold marshal; simp [List.append_assoc]
+  rw [hm, unmarshal_serialized H op Ω ver vid hver hfind hnolf htrim hfin hne hclean _ fault]
   obtain ⟨f1, f2, f3⟩ := C01_framing content tail
+  have hshort : decide ((content ++ crlfcrlf ++ tail).length < content.length) = false := by
+    simp only [List.length_append, decide_eq_false_iff_not]; omega
   have hneg : ¬ ((content.length : Int) < 0) := by omega
   have hvdS : validateDigest H op rt b' false ⟨hfin, []⟩ = (.ok (), ⟨hfin, []⟩) := by
     apply validateDigest_silent H op rt b' hfin [] (by rw [hraw']; exact hclv) (by rw [hbd', hraw']; exact hbdS)
@@ -82,20 +87,19 @@ theorem accept_core (ob op : Opts) (Ω : Oracles) (ver : String) (vid : Nat) (hv
       unfold Block.payload
       rw [hraw', hhl']
       exact hpdS hsk (by rw [hbp]; rfl)
-  have htail : unmarshalTail H op Ω (bs ver) vid hfin ⟨content ++ crlfcrlf ++ tail, false⟩ ⟨[], []⟩ =
+  have htail : unmarshalTail H op Ω (bs ver) vid hfin ⟨content ++ crlfcrlf ++ tail, fault⟩ ⟨[], []⟩ =
       (.ok (some { verTxt := bs ver, verId := vid, rt := rt, hdr := hfin, block := b' }, tail), ⟨hfin, []⟩) := by
     unfold unmarshalTail
     simp only [M.bind_def, M.setHdr_def, validateHeader_silent op Ω vid hfin [] hok, M.hdr_def, hcl, hneg, ↓reduceIte, Int.toNat_natCast,
       f1, f2, f3, hrtfin, Bool.false_and, hpb', hvdS, condFail, Bool.false_eq_true, M.pure_def, bne_self_eq_false, condSite_false,
-      beq_self_eq_true]
+      beq_self_eq_true, decide_false, Bool.or_false, hshort, Bool.and_false, Bool.false_or]
   rw [htail]
-  exact ⟨_, rfl, rfl, hraw', rfl, rfl, rfl⟩
 
 /-- **a record the strict builder accepted is accepted silently by every reader, unaltered** -/
 theorem C01_accepts (ob op : Opts) (Ω : Oracles) (ver : String) (vid : Nat) (hver : (ver, vid) ∈ Gen.versions)
     (hfind : Gen.versions.find? (fun p => bs p.1 == bs ver) = some (ver, vid))
     (hnolf : LF ∉ bs ver) (htrim : trim isWs (bs ver ++ crlf) = bs ver)
-    (rt0 : Nat) (hdr : Fields) (content newId : Bytes) (r : Rec) (tail : Bytes)
+    (rt0 : Nat) (hdr : Fields) (content newId : Bytes) (r : Rec)
     (hsb : StrictBuilder ob)
     (hnoBD : hdr.has (bs "WARC-Block-Digest") = false) (hnoPD : hdr.has (bs "WARC-Payload-Digest") = false)
     (hH : ∀ a x, (H a x).length = a.size)
@@ -107,7 +111,8 @@ theorem C01_accepts (ob op : Opts) (Ω : Oracles) (ver : String) (vid : Nat) (hv
     (hskip : op.skipParseBlock = ob.skipParseBlock)
     (hunk : rtOf r.hdr = 0 → op.unk = .ignore)
     (hdflt : ∃ d, newDigest op.defaultAlg op.defaultEnc = some d) :
-    ∃ r', unmarshal H op Ω ⟨marshal (bs ver) r.hdr r.block.raw ++ tail, false⟩ = ⟨some r', 0, [], none, tail⟩ ∧
+    ∃ r', (∀ (tail : Bytes) (fault : Bool),
+        unmarshal H op Ω ⟨marshal (bs ver) r.hdr r.block.raw ++ tail, fault⟩ = ⟨some r', 0, [], none, tail⟩) ∧
       r'.hdr = r.hdr ∧ r'.block.raw = r.block.raw ∧ r.block.raw = content ∧ r'.rt = r.rt ∧ r'.verTxt = r.verTxt ∧ r'.verId = r.verId := by
   unfold build at hrec herr
   simp only [M.bind_def] at hrec herr
@@ -210,7 +215,7 @@ theorem C01_accepts (ob op : Opts) (Ω : Oracles) (ver : String) (vid : Nat) (hv
     rw [hfinEq] at hclean hunk hrt ⊢
     have hne : hdr2.set (bs "WARC-Block-Digest") (b.blockDigest.format H b.raw) ≠ [] := by
       intro he; rw [he] at a8; simp [Fields.has] at a8
-    obtain ⟨r', h1, h2, h3, h4, h5, h6⟩ := accept_core H ob op Ω ver vid hver hfind hnolf htrim _ b.raw tail rt b sp hne hclean
+    obtain ⟨r', h1, h2, h3, h4, h5, h6⟩ := accept_core H ob op Ω ver vid hver hfind hnolf htrim _ b.raw rt b sp hne hclean
       ⟨by rw [a5]; exact htype, hunk, a7 hdef⟩ (hrtEq _ a6 hfinEq) (by rw [a4]; exact hcl2) (by rw [a2]; exact hclv) hsb.syn hsb.blk hskip hpb
       (by rw [a1, hspRt]) dB dflt
       (by unfold digestOfField; rw [a8, a9, hv1]; simpa using hdB)
@@ -225,7 +230,7 @@ theorem C01_accepts (ob op : Opts) (Ω : Oracles) (ver : String) (vid : Nat) (hv
       rw [hfinEq] at hclean hunk hrt ⊢
       have hne : hdr2.set (bs "WARC-Block-Digest") (b.blockDigest.format H b.raw) ≠ [] := by
         intro he; rw [he] at a8; simp [Fields.has] at a8
-      obtain ⟨r', h1, h2, h3, h4, h5, h6⟩ := accept_core H ob op Ω ver vid hver hfind hnolf htrim _ b.raw tail rt b sp hne hclean
+      obtain ⟨r', h1, h2, h3, h4, h5, h6⟩ := accept_core H ob op Ω ver vid hver hfind hnolf htrim _ b.raw rt b sp hne hclean
         ⟨by rw [a5]; exact htype, hunk, a7 hdef⟩ (hrtEq _ a6 hfinEq) (by rw [a4]; exact hcl2) (by rw [a2]; exact hclv) hsb.syn hsb.blk hskip hpb
         (by rw [a1, hspRt]) dB dflt
         (by unfold digestOfField; rw [a8, a9, hv1]; simpa using hdB)
@@ -241,7 +246,7 @@ theorem C01_accepts (ob op : Opts) (Ω : Oracles) (ver : String) (vid : Nat) (hv
         intro he; rw [he] at c8; simp [Fields.has] at c8
       obtain ⟨dP, hdP, hsP⟩ := written_digest_silent H ob op bd0 (b.raw.drop b.headLen) hbdef hsb.enc hH
       have hpl : b.payload = b.raw.drop b.headLen := rfl
-      obtain ⟨r', h1, h2, h3, h4, h5, h6⟩ := accept_core H ob op Ω ver vid hver hfind hnolf htrim _ b.raw tail rt b sp hne hclean
+      obtain ⟨r', h1, h2, h3, h4, h5, h6⟩ := accept_core H ob op Ω ver vid hver hfind hnolf htrim _ b.raw rt b sp hne hclean
         ⟨by rw [c5, a5]; exact htype, hunk, c7 (a7 hdef)⟩ (hrtEq _ (by rw [c6, a6]) hfinEq) (by rw [c4, a4]; exact hcl2)
         (by rw [c2, a2]; exact hclv) hsb.syn hsb.blk hskip hpb
         (by rw [c1, a1, hspRt]) dB dP
